@@ -431,6 +431,79 @@ pub fn run(ctx: &Ctx) -> i32 {
                 }
             }
         }
+        // a table on which blank lines are rows: one record per input line
+        {
+            let edef = "CREATE TABLE e('^(.*)$' => x TEXT);";
+            let etables = sut::make_tables(edef).unwrap();
+            let edata = "a\n\nb\n\n";
+            for (q, names) in [("SELECT x FROM e", vec!["x"]), ("SELECT input FROM e", vec!["input"]), ("SELECT length(x) AS n, x FROM e", vec!["n", "x"])] {
+                let st = sut::parse(q).unwrap();
+                for (fname, f) in [("text", OutputFormat::Text), ("json", OutputFormat::Json), ("csv", OutputFormat::CSV(";".into()))] {
+                    ne += 1;
+                    col.eval(1);
+                    col.nontrivial(h64(&("e2e-blank", q, fname)));
+                    let lib = match sut::run_files(&etables, &st, &[edata.as_bytes()], FileRunOpts { format: f.clone(), single_result: true, ..Default::default() }) {
+                        Outcome::Ok(fr) if fr.result.is_ok() => fr.printed.clone(),
+                        o => vec![format!("<{}>", o.kind())],
+                    };
+                    let nrec = if fname == "csv" { lib.len().saturating_sub(1) } else { lib.len() };
+                    if nrec != 4 {
+                        col.fail(fail(
+                            format!("print:end-to-end:{}:blank-lines", fname),
+                            format!("`{}` over the lines a, (blank), b, (blank) on a table whose pattern matches the empty text prints {} records in {} format ({:?}), expected 4 ({:?})", q, nrec, fname, lib, names),
+                            json!({"layer": "e2e", "query": q, "format": fname}),
+                            json!(4),
+                            json!(lib),
+                            ne,
+                        ));
+                    }
+                }
+            }
+        }
+        // the command line program in follow mode with --format: the records are those of the batch run in that format
+        {
+            let mut missing = false;
+            for fname in ["text", "json", "csv"] {
+                for q in ["SELECT k, v AS val, v + 1 FROM t", "SELECT * FROM t WHERE v > 1"] {
+                    let batch = match sut::run_cli(&["-d", &defp, &datap, "--format", fname, "-c", q]) {
+                        Some(b) => b.0,
+                        None => {
+                            missing = true;
+                            break;
+                        }
+                    };
+                    let follow = match crate::checks::c10::cli_follow_raw(false, true, data.as_bytes(), &[], def, q, fname, "zzzend 9 ", "zzzend") {
+                        Ok(Some(l)) => l,
+                        Ok(None) => {
+                            missing = true;
+                            break;
+                        }
+                        Err(e) => {
+                            col.note(format!("command-line follow case skipped: {}", e));
+                            continue;
+                        }
+                    };
+                    ne += 1;
+                    col.eval(1);
+                    col.nontrivial(h64(&("e2e-follow", q, fname)));
+                    let a: Vec<&String> = batch.iter().filter(|l| !l.is_empty()).collect();
+                    let b: Vec<&String> = follow.iter().filter(|l| !l.is_empty()).collect();
+                    if a != b {
+                        col.fail(fail(
+                            format!("print:end-to-end:{}:follow-mode-differs", fname),
+                            format!("`{}` with --format {}: -f --head prints {:?}, the batch run prints {:?}", q, fname, b, a),
+                            json!({"layer": "e2e", "query": q, "format": fname, "follow": true}),
+                            json!(a),
+                            json!(b),
+                            ne,
+                        ));
+                    }
+                }
+                if missing {
+                    break;
+                }
+            }
+        }
         std::fs::remove_file(&defp).ok();
         std::fs::remove_file(&datap).ok();
         col.layer("end to end: FileExecutor + command line program", ne, true, json!({"queries": cases.len(), "formats": 3}));
